@@ -28,6 +28,10 @@ type Spec struct {
 	// Stale: the output directory is not empty - every file of the new build already exists there with
 	// other, longer content (the fresh bowl must truncate pre-existing files)
 	Stale bool `json:"stale,omitempty"`
+	// Peek > 0: the pool over the old build has been used before the application (Peek bytes of old file
+	// PeekIdx read through GetReadSeeker): its cached handle is not at offset 0
+	Peek    int `json:"peek,omitempty"`
+	PeekIdx int `json:"peek_idx,omitempty"`
 }
 
 // GenComp draws a compression setting over all registered algorithms and the
@@ -137,7 +141,12 @@ func check(s Spec) h.Result {
 			cl = append(cl, "output:pre-existing-longer-files")
 		}
 	}
-	if err := h.ApplyFresh(df.Patch, od, out, nil); err != nil {
+	var aopts *h.ApplyOpts
+	if s.Peek > 0 {
+		aopts = &h.ApplyOpts{Peek: s.Peek, PeekIdx: s.PeekIdx}
+		cl = append(cl, "old-pool:handed-over-after-use")
+	}
+	if err := h.ApplyFresh(df.Patch, od, out, aopts); err != nil {
 		return h.Result{Fail: fmt.Sprintf("fresh apply failed: %v", err), Classes: cl}
 	}
 	if m := h.CheckDir(out, s.Pair.New, false); m != "" {
@@ -156,6 +165,10 @@ var prop = h.Prop[Spec]{
 		}
 		s.SigFile = rapid.IntRange(0, 3).Draw(t, "old-signature-from-stream") == 0
 		s.Stale = rapid.IntRange(0, 4).Draw(t, "stale-output") == 0
+		if rapid.IntRange(0, 3).Draw(t, "used-old-pool") == 0 {
+			s.Peek = rapid.SampledFrom([]int{1, 4113, 1 << 30}).Draw(t, "peek-bytes")
+			s.PeekIdx = rapid.IntRange(0, 7).Draw(t, "peek-idx")
+		}
 		return s
 	},
 	Check: check,
